@@ -15,6 +15,22 @@ def Frame(dummy: "Int") -> "Bool":
 
 
 # ---------------------------------------------------------------- substitution
+bound(a="Type")
+
+
+@ghost
+def AssignedPlain(a: "Type", tm: "Map[TypeParameter,Type]") -> "Bool":
+    """a is not an instantiation and not a projection, and the map assigns it a type"""
+    define(not isinstance(a, ParameterizedType) and not isinstance(a, WildCardType) and a in tm and tm[a] is not None)
+
+
+@ghost
+def Untouched(a: "Type", tm: "Map[TypeParameter,Type]") -> "Bool":
+    """a is not an instantiation, not a projection, not a type variable, and the map does not assign it: nothing to replace"""
+    define(not isinstance(a, ParameterizedType) and not isinstance(a, WildCardType) and not isinstance(a, TypeParameter)
+           and not (a in tm and tm[a] is not None))
+
+
 @contract("src.ir.types._get_type_substitution", frame="fresh")
 def _(etype: "Type", type_map: "TypeMap", cond: "Any") -> "Type":
     callable(cond="src.ir.types.<cond>")
@@ -22,6 +38,50 @@ def _(etype: "Type", type_map: "TypeMap", cond: "Any") -> "Type":
     modifies(".*")
     ensures("mutates-nothing", forall(lambda o: implies(allocated(o), unchanged(o))))
     ensures("result-exists", allocated_now(result))
+    # ---- "every occurrence is replaced", one level at a time (the clauses speak about the heap after the call; what a
+    # nested call built is not changed afterwards by the frame clauses above)
+    # a type variable the map assigns (and the caller's condition lets through) is replaced by its assignment
+    ensures("assigned-variable-replaced", implies(
+        not isinstance(etype, ParameterizedType) and not (isinstance(etype, WildCardType) and cast(etype, "WildCardType").bound is not None)
+        and etype in type_map and type_map[etype] is not None and not cond(type_map[etype]),
+        same(result, type_map[etype])))
+    # anything else that is neither an instantiation, a bounded projection nor a bounded variable is returned as it is
+    ensures("nothing-to-replace", implies(
+        not isinstance(etype, ParameterizedType) and not (isinstance(etype, WildCardType) and cast(etype, "WildCardType").bound is not None)
+        and not (etype in type_map and type_map[etype] is not None)
+        and not (isinstance(etype, TypeParameter) and cast(etype, "TypeParameter").bound is not None),
+        same(result, etype)))
+    # a projection stays a projection of the same kind ...
+    ensures("projection-kept", implies(
+        isinstance(etype, WildCardType) and cast(etype, "WildCardType").bound is not None,
+        isinstance(result, WildCardType) and same(cast(result, "WildCardType").variance, cast(etype, "WildCardType").variance)
+        and cast(result, "WildCardType").bound is not None))
+    # ... and an occurrence INSIDE its bound is replaced: `out T` with T assigned becomes `out <assignment>`
+    ensures("occurrence-in-projection-bound-replaced", implies(
+        isinstance(etype, WildCardType) and cast(etype, "WildCardType").bound is not None
+        and not isinstance(cast(etype, "WildCardType").bound, ParameterizedType)
+        and not isinstance(cast(etype, "WildCardType").bound, WildCardType)
+        and cast(etype, "WildCardType").bound in type_map and type_map[cast(etype, "WildCardType").bound] is not None
+        and not cond(type_map[cast(etype, "WildCardType").bound]),
+        same(cast(result, "WildCardType").bound, type_map[cast(etype, "WildCardType").bound])))
+    # an instantiation is re-built (a new object: its arguments are substituted) with as many arguments
+    ensures("instantiation-rebuilt", implies(isinstance(etype, ParameterizedType), isinstance(result, ParameterizedType)
+            and newobj(result)
+            and len(cast(result, "ParameterizedType").type_args) == len(cast(etype, "ParameterizedType").type_args)))
+    # ... also when it is the bound of a projection (`out A<T>`): the projection gets the re-built instantiation
+    ensures("instantiation-in-projection-bound-rebuilt", implies(
+        isinstance(etype, WildCardType) and cast(etype, "WildCardType").bound is not None
+        and isinstance(cast(etype, "WildCardType").bound, ParameterizedType),
+        isinstance(cast(result, "WildCardType").bound, ParameterizedType) and newobj(cast(result, "WildCardType").bound)
+        and len(cast(cast(result, "WildCardType").bound, "ParameterizedType").type_args)
+        == len(cast(cast(etype, "WildCardType").bound, "ParameterizedType").type_args)))
+    # a bounded type variable that is not replaced is re-built with the same name and variance (its bound is substituted)
+    ensures("bounded-variable-rebuilt", implies(
+        isinstance(etype, TypeParameter) and cast(etype, "TypeParameter").bound is not None
+        and not (etype in type_map and type_map[etype] is not None and not cond(type_map[etype])),
+        isinstance(result, TypeParameter) and newobj(result)
+        and same(cast(result, "TypeParameter").name, etype.name)
+        and same(cast(result, "TypeParameter").variance, cast(etype, "TypeParameter").variance)))
 
 
 @contract("src.ir.types.substitute_type_args", frame="fresh")
@@ -33,11 +93,62 @@ def _(etype: "Type", type_map: "TypeMap", cond: "Any") -> "ParameterizedType":
     ensures("mutates-nothing", forall(lambda o: implies(allocated(o), unchanged(o))))
     ensures("new", newobj(result))
     ensures("arity", len(result.type_args) == len(cast(etype, "ParameterizedType").type_args))
+    # ---- "every occurrence is replaced", for the occurrences directly in argument position and inside the bound of a
+    # projected argument (deeper occurrences: the same clauses of the nested calls, one level at a time)
+    ensures("assigned-argument-replaced", forall(lambda k: implies(
+        0 <= k and k < len(cast(etype, "ParameterizedType").type_args)
+        and AssignedPlain(cast(etype, "ParameterizedType").type_args[k], type_map)
+        and not cond(type_map[cast(etype, "ParameterizedType").type_args[k]]),
+        same(result.type_args[k], type_map[cast(etype, "ParameterizedType").type_args[k]]))))
+    ensures("other-argument-kept", forall(lambda k: implies(
+        0 <= k and k < len(cast(etype, "ParameterizedType").type_args)
+        and Untouched(cast(etype, "ParameterizedType").type_args[k], type_map),
+        same(result.type_args[k], cast(etype, "ParameterizedType").type_args[k]))))
+    ensures("projected-argument-replaced", forall(lambda k: implies(
+        0 <= k and k < len(cast(etype, "ParameterizedType").type_args)
+        and isinstance(cast(etype, "ParameterizedType").type_args[k], WildCardType)
+        and cast(cast(etype, "ParameterizedType").type_args[k], "WildCardType").bound is not None
+        and AssignedPlain(cast(cast(etype, "ParameterizedType").type_args[k], "WildCardType").bound, type_map)
+        and not cond(type_map[cast(cast(etype, "ParameterizedType").type_args[k], "WildCardType").bound]),
+        isinstance(result.type_args[k], WildCardType)
+        and same(cast(result.type_args[k], "WildCardType").variance,
+                 cast(cast(etype, "ParameterizedType").type_args[k], "WildCardType").variance)
+        and same(cast(result.type_args[k], "WildCardType").bound,
+                 type_map[cast(cast(etype, "ParameterizedType").type_args[k], "WildCardType").bound]))))
+    ensures("nested-instantiation-rebuilt", forall(lambda k: implies(
+        0 <= k and k < len(cast(etype, "ParameterizedType").type_args)
+        and isinstance(cast(etype, "ParameterizedType").type_args[k], ParameterizedType),
+        isinstance(result.type_args[k], ParameterizedType) and newobj(result.type_args[k])
+        and len(cast(result.type_args[k], "ParameterizedType").type_args)
+        == len(cast(cast(etype, "ParameterizedType").type_args[k], "ParameterizedType").type_args))))
     local(type_args="Seq[Type]")
     with loop("0"):
         invariant("mutates-nothing", forall(lambda o: implies(allocated(o), unchanged(o))))
         invariant("len", len(type_args) == _i0)
         invariant("exists", forall(lambda k: implies(0 <= k and k < _i0, allocated_now(type_args[k]))))
+        invariant("nested-instantiation-rebuilt", forall(lambda k: implies(
+            0 <= k and k < _i0 and isinstance(cast(etype, "ParameterizedType").type_args[k], ParameterizedType),
+            isinstance(type_args[k], ParameterizedType) and newobj(type_args[k])
+            and len(cast(type_args[k], "ParameterizedType").type_args)
+            == len(cast(cast(etype, "ParameterizedType").type_args[k], "ParameterizedType").type_args))))
+        invariant("assigned-argument-replaced", forall(lambda k: implies(
+            0 <= k and k < _i0 and AssignedPlain(cast(etype, "ParameterizedType").type_args[k], type_map)
+            and not cond(type_map[cast(etype, "ParameterizedType").type_args[k]]),
+            same(type_args[k], type_map[cast(etype, "ParameterizedType").type_args[k]]))))
+        invariant("other-argument-kept", forall(lambda k: implies(
+            0 <= k and k < _i0 and Untouched(cast(etype, "ParameterizedType").type_args[k], type_map),
+            same(type_args[k], cast(etype, "ParameterizedType").type_args[k]))))
+        invariant("projected-argument-replaced", forall(lambda k: implies(
+            0 <= k and k < _i0
+            and isinstance(cast(etype, "ParameterizedType").type_args[k], WildCardType)
+            and cast(cast(etype, "ParameterizedType").type_args[k], "WildCardType").bound is not None
+            and AssignedPlain(cast(cast(etype, "ParameterizedType").type_args[k], "WildCardType").bound, type_map)
+            and not cond(type_map[cast(cast(etype, "ParameterizedType").type_args[k], "WildCardType").bound]),
+            isinstance(type_args[k], WildCardType)
+            and same(cast(type_args[k], "WildCardType").variance,
+                     cast(cast(etype, "ParameterizedType").type_args[k], "WildCardType").variance)
+            and same(cast(type_args[k], "WildCardType").bound,
+                     type_map[cast(cast(etype, "ParameterizedType").type_args[k], "WildCardType").bound]))))
 
 
 @contract("src.ir.types.substitute_type", frame="fresh")
